@@ -174,8 +174,8 @@ theorem tsigFacts : TsigFacts := by
         · simp only [h3, if_true, beq_self_eq_true]
           refine ⟨rd.toList, rfl, ?_⟩
           obtain ⟨p, hp, hpl⟩ := (C14.C14_validate_ok_iff rd false alg).mp hva
-          refine ⟨p, by simpa using hp, ?_⟩
-          simp; omega
+          refine ⟨p, by simpa using hp, by simp; omega, rfl, ?_⟩
+          rw [hpl]; exact h3
         · have : (alg + be16 rd (alg + 8) + be16 rd (alg + be16 rd (alg + 8) + 14) + 16 == len) = false := by
             simpa using h3
           simp only [h3, if_false, this, Bool.false_eq_true]
